@@ -2,6 +2,8 @@ import Poly.Util.Sha256
 import Poly.Util.Proto
 import Poly.Model.KV
 import Poly.Model.KVLayers
+import Poly.Model.KVArena
+import Poly.Model.KVStateRoot
 import Poly.Model.IncVal
 /- Driver for the key/value families. `drv_kv <family>` reads op lines on stdin (see harness/cmd/hkv). -/
 open Poly
@@ -78,6 +80,31 @@ def step (s : St) (toks : List String) : St × String :=
 
 end MemdbDrv
 
+/-! ### family arena (C09, arena refinement) -/
+namespace ArenaDrv
+open KVDrv
+
+def dump (a : Arena) : String :=
+  let ps := a.chain a.nd.length 0
+  let chain := if ps.isEmpty then "-" else
+    ",".intercalate (ps.map fun p => s!"{p}:{a.cell p}:{a.cell (p+1)}:{a.cell (p+2)}:{a.cell (p+3)}")
+  s!"kvlen={a.kv.length} ndlen={a.nd.length} n={a.n} size={a.kvSize} kv={Hex.showHex a.kv} chain={chain}"
+
+def step (a : Arena) (toks : List String) : Arena × String :=
+  match toks with
+  | ["put", k, v, h] => (a.put (Proto.bytesOf k) (Proto.bytesOf v) (Proto.natOf h), "ok")
+  | ["del", k, h] => (a.put (Proto.bytesOf k) [] (Proto.natOf h), "ok")
+  | ["reset"] => ({}, "ok")
+  | ["get", k] =>
+    (a, match a.get (Proto.bytesOf k) with
+        | .known v => "known:" ++ Hex.showHex v
+        | .knownAbsent => "absent"
+        | .unknown => "unknown")
+  | ["dump"] => (a, dump a)
+  | _ => (a, "bad-op")
+
+end ArenaDrv
+
 /-! ### family layers (C10) -/
 namespace LayersDrv
 open KVDrv
@@ -85,6 +112,10 @@ open KVDrv
 structure St where
   ov : Overlay := {}
   cache : CacheDB := {}
+  /-- open OverlayDB iterator: JoinIter state + the store snapshot taken by `NewIterator` -/
+  oj : Option (OvIter × Entries) := none
+  /-- open CacheDB iterator -/
+  cj : Option (CacheIter × Entries) := none
 
 def runScript {σ : Type} (O : Ops σ) (s : σ) (script : String) : String :=
   let rec go (cs : List Char) (s : σ) (acc : List String) : List String :=
@@ -94,6 +125,18 @@ def runScript {σ : Type} (O : Ops σ) (s : σ) (script : String) : String :=
       let res := if c == 'F' then O.first s else O.next s
       go r res.1 (((if res.2 then "t " else "f ") ++ Hex.showHex (O.key res.1) ++ " " ++ Hex.showHex (O.value res.1)) :: acc)
   " | ".intercalate (go script.toList s [])
+
+/-- The operations of an open OverlayDB iterator *now*: the buffer side reads the current buffer, the store side
+the snapshot. -/
+def liveOvOps (s : St) (snap : Entries) : Ops OvIter :=
+  Join.ops (iterOps s.ov.mem.ents) (iterOps snap) (s.ov.mem.ents.length + snap.length + 2)
+
+def liveCacheOps (s : St) (snap : Entries) : Ops CacheIter :=
+  Join.ops (iterOps s.cache.mem.ents) (liveOvOps s snap) (s.cache.mem.ents.length + s.ov.mem.ents.length + snap.length + 2)
+
+def showStep {σ : Type} (O : Ops σ) (r : σ × Bool) (strip : Bool) : String :=
+  let k := if strip then stripKey (O.key r.1) else O.key r.1
+  (if r.2 then "t " else "f ") ++ Hex.showHex k ++ " " ++ Hex.showHex (O.value r.1)
 
 def stripOps (O : Ops CacheIter) : Ops CacheIter := { O with key := fun s => stripKey (O.key s) }
 
@@ -109,6 +152,21 @@ def step (s : St) (toks : List String) : St × String :=
   | ["oget", k] => (s, Hex.showHex (s.ov.get (b k)))
   | ["oscan", p] => (s, showEnts (s.ov.scan (b p)))
   | ["oit", p, sc] => (s, runScript s.ov.iterOps (Overlay.newIterator (b p)) sc)
+  | ["ofail", p, k, sc] =>
+    -- JoinIter over the overlay buffer and a store iterator that fails at its k-th positioning call
+    let A := iterOps s.ov.mem.ents
+    let B := faultyOps (iterOps s.ov.store.data)
+    let fuel := s.ov.mem.ents.length + s.ov.store.data.length + 2
+    let j₀ : Join Iter (Faulty Iter) :=
+      { mem := Iter.new (some (bytesPrefix (b p))), back := { inner := Iter.new (some (bytesPrefix (b p))), failAt := Proto.natOf k } }
+    let rec go (cs : List Char) (j : Join Iter (Faulty Iter)) (acc : List String) : List String :=
+      match cs with
+      | [] => acc.reverse
+      | c :: r =>
+        let res := if c == 'F' then Join.FirstE A B (·.err) Faulty.failed fuel j else Join.NextE A B (·.err) Faulty.failed fuel j
+        let e := if Join.err (·.err) Faulty.failed res.1 then "E" else "-"
+        go r res.1 (((if res.2 then "t " else "f ") ++ Hex.showHex res.1.key ++ " " ++ Hex.showHex res.1.value ++ " " ++ e) :: acc)
+    (s, " | ".intercalate (go sc.toList j₀ []))
   | ["ocommit"] =>
     match ({ s.ov with store := s.ov.store.newBatch }).commitTo with
     | some o => ({ s with ov := { o with store := o.store.batchCommit } }, "ok")
@@ -117,14 +175,32 @@ def step (s : St) (toks : List String) : St × String :=
     match s.ov.commitTo with
     | some o => ({ s with ov := o }, "ok")
     | none => (s, "panic")
-  | ["oreset"] => ({ s with ov := s.ov.reset }, "ok")
+  | ["ojopen", p] => ({ s with oj := some (Overlay.newIterator (b p), s.ov.store.data) }, "ok")
+  | ["ojfirst"] =>
+    match s.oj with
+    | some (it, snap) => let r := (liveOvOps s snap).first it; ({ s with oj := some (r.1, snap) }, showStep (liveOvOps s snap) r false)
+    | none => (s, "closed")
+  | ["ojnext"] =>
+    match s.oj with
+    | some (it, snap) => let r := (liveOvOps s snap).next it; ({ s with oj := some (r.1, snap) }, showStep (liveOvOps s snap) r false)
+    | none => (s, "closed")
+  | ["cjopen", p] => ({ s with cj := some (CacheDB.newIterator (b p), s.ov.store.data) }, "ok")
+  | ["cjfirst"] =>
+    match s.cj with
+    | some (it, snap) => let r := (liveCacheOps s snap).first it; ({ s with cj := some (r.1, snap) }, showStep (liveCacheOps s snap) r true)
+    | none => (s, "closed")
+  | ["cjnext"] =>
+    match s.cj with
+    | some (it, snap) => let r := (liveCacheOps s snap).next it; ({ s with cj := some (r.1, snap) }, showStep (liveCacheOps s snap) r true)
+    | none => (s, "closed")
+  | ["oreset"] => ({ s with ov := s.ov.reset, oj := none, cj := none }, "ok")
   | ["cput", k, v] => ({ s with cache := s.cache.put (b k) (b v) }, "ok")
   | ["cdel", k] => ({ s with cache := s.cache.delete (b k) }, "ok")
   | ["cget", k] => (s, Hex.showHex (s.cache.get s.ov (b k)))
   | ["cscan", p] => (s, showEnts (s.cache.scan s.ov (b p)))
   | ["cit", p, sc] => (s, runScript (stripOps (s.cache.iterOps s.ov)) (CacheDB.newIterator (b p)) sc)
   | ["ccommit"] => ({ s with ov := s.cache.commit s.ov }, "ok")
-  | ["creset"] => ({ s with cache := s.cache.reset }, "ok")
+  | ["creset"] => ({ s with cache := s.cache.reset, cj := none }, "ok")
   | _ => (s, "bad-op")
 
 end LayersDrv
@@ -161,6 +237,33 @@ def step (_ : Unit) (toks : List String) : Unit × String :=
 
 end DigestDrv
 
+/-! ### family stateroot (C11, delta_root_fn) -/
+namespace StateRootDrv
+open KVDrv Poly.Model.Merkle
+
+structure St where
+  tree : CompactTree := emptyTree
+  pending : Option (List UInt8) := none
+
+def showE (r : Except Err Poly.Spec.RFC6962.Hash) : String := match r with | .ok h => Hex.showHex h | .error e => e.name
+
+def step (s : St) (toks : List String) : St × String :=
+  match toks with
+  | ["ledger", root0] => ({ tree := ⟨1, [Proto.bytesOf root0]⟩, pending := none }, "ok")
+  | "exec" :: ts =>
+    let d := blockDigest Sha256.sha256 (DigestDrv.parseTxs ts)
+    ({ s with pending := some d }, "h=" ++ Hex.showHex d ++ " root=" ++ showE (predictedStateRoot Sha256.sha256 s.tree d))
+  | ["commit"] =>
+    match s.pending with
+    | none => (s, "nothing-to-commit")
+    | some d =>
+      match addStateRoot Sha256.sha256 s.tree d with
+      | .ok (t', r) => ({ tree := t', pending := none }, "recorded=" ++ Hex.showHex r)
+      | .error e => (s, e.name)
+  | _ => (s, "bad-op")
+
+end StateRootDrv
+
 /-! ### family incval (C38) -/
 namespace IncValDrv
 open Poly.Model.IncVal
@@ -193,9 +296,11 @@ end IncValDrv
 def main (args : List String) : IO Unit :=
   match args with
   | ["memdb"] => Proto.run ({} : MemdbDrv.St) MemdbDrv.step
+  | ["arena"] => Proto.run ({} : Arena) ArenaDrv.step
   | ["layers"] => Proto.run ({} : LayersDrv.St) LayersDrv.step
   | ["digest"] => Proto.run () DigestDrv.step
   | ["blockdigest"] => Proto.run () DigestDrv.step
+  | ["stateroot"] => Proto.run ({} : StateRootDrv.St) StateRootDrv.step
   | ["incval"] => Proto.run ({} : Poly.Model.IncVal.IncVal) IncValDrv.step
   | ["stateful"] => Proto.run ([] : List Nat) IncValDrv.stepStateful
   | _ => IO.eprintln "usage: drv_kv <family>"
